@@ -6,7 +6,7 @@ from concurrent.futures import ThreadPoolExecutor
 import common
 
 CORPUS_SEED = 1
-CORPUS_N = 48
+CORPUS_N = 50
 
 HEX_OK = "4f6b28"      # Ok(
 HEX_ERR = "45727228"   # Err(
@@ -30,7 +30,8 @@ def specs():
                               limit=None if cfg[2] == "-" else int(cfg[2]), maxmem=None if cfg[3] == "-" else int(cfg[3]),
                               ttl=None if cfg[4] == "-" else int(cfg[4]), use_mem=p[6] == "1", is_result=p[7] == "1",
                               cache_if=p[8] == "1", inv_on=p[9] == "1", tags=[x for x in p[10].split(",") if x],
-                              events=[x for x in p[11].split(",") if x], deps=[x for x in p[12].split(",") if x], line=line)
+                              events=[x for x in p[11].split(",") if x], deps=[x for x in p[12].split(",") if x], line=line,
+                              real_result=(len(p) > 15 and p[15] == "1"))
     return out, res
 
 
@@ -133,6 +134,11 @@ class EpisodeMonitor:
                     self.fail("C09", f"call {op}: an Err result was served from the cache")
                 if self.rejected.get((inst, key)) and o["execs"] == 0 and not o["check"]:
                     self.fail("C09", f"call {op}: previous outcome for this key was Err, yet the body did not run")
+            # C09 over the property's own notion of "returns Result" (known finding F7: spellings the macro misses)
+            if s["real_result"] and not s["is_result"] and not s["cache_if"]:
+                self.ev("c09-unrecognised-spelling-call")
+                if o["ret"].startswith(HEX_ERR) and o["execs"] == 0:
+                    self.fail("C09", f"call {op}: an Err result was served from the cache (unrecognised Result spelling of function {fi}: alias / core::result::Result)")
             # C10: cache_if consulted exactly once per body execution, with that call's key and result
             if s["cache_if"]:
                 self.ev("c10-call")
